@@ -66,7 +66,7 @@ class C11(ProgramProperty):
     id = 'C11'
     technique = ('round-trip property testing: exhaustive (parent, child, side) operator-template sweep on every run + Hypothesis-generated expressions and '
                  'boundary constants; oracle parse(unparse(T)) == T, unparse fixed point, CPython agrees on the rendered text')
-    level_text = ('every ordered pair of ~80 expression classes x ~95 parent slots (about 7,000 sources) on each run, then ~20k (quick) / 1M (thorough) generated '
+    level_text = ('every ordered pair of ~80 expression classes x ~95 parent slots (about 7,000 sources) on each run, then ~60k (quick) / 1M (thorough) generated '
                   'expressions, constants (boundary floats, huge ints, quotes / controls / non-ASCII in strings and bytes, complex, Ellipsis) and f-strings: the '
                   'rendering must parse back to the same tree up to ranges and load/store tags, render to the same text again, and mean the same to CPython')
     level_note = 'the parser itself is the inverse (its correctness is C01\'s subject); CPython 3.11 is used as a cross-check of the rendered text'
@@ -74,7 +74,7 @@ class C11(ProgramProperty):
             'constant / f-string; distinct by case hash')
 
     def budget(self, tier):
-        return 20000 if tier == 'quick' else 1000000
+        return 60000 if tier == 'quick' else 1000000
 
     def avoid(self):
         return {'C01-F1', 'C01-F4', 'C01-F24'}
